@@ -298,7 +298,7 @@ class C09(Check):
             "scripted requeue/retry step is actually delivered. Non-trivial: >=1 with_labels op and >=1 "
             "requeue/retry; distinct = distinct (op kinds, label types, action lists, format).")
     floors = {"counters.deliveries": 5000, "counters.requeues": 800, "counters.retries": 500, "counters.sends": 5000}
-    quick_cases = 3000
+    quick_cases = 5000
     thorough_cases = 100000
     assumptions = [
         "msgpack / orjson / cbor2 serializers are not installed in this sandbox and are not exercised",
